@@ -285,13 +285,15 @@ def _r023(ctx: Ctx) -> None:
                              f'{norm_stmt(viol[0][0], 100)} (source {norm_stmt(viol[0][1], 80)}); order changes '
                              f'with PYTHONHASHSEED / the file system',
                key=f'{q.split(".")[-1]}.{name}|hash-order')
-    # positive control: stabilizer_types must be recognised as a hash-ordered string list
-    base = m.cls('StabilizerCode')
-    r = base.find_method('stabilizer_types')
-    ctx.need(r is not None, 'R02.3', site_of(base.module, base.node), 'positive control stabilizer_types vanished')
-    uses = list(hash_ordered_uses(r[1]))
-    ctx.need(any(k == 'str' for _, _, k in uses), 'R02.3', site_of(base.module, r[1]),
-             'positive control failed: list(set(<stabilizer_type strings>)) not recognised as hash-ordered')
+    # positive control (built in, so that it does not depend on how the repository writes stabilizer_types today): a list
+    # made from a set of stabilizer-type strings must be recognised as hash-ordered
+    demo = ast.parse("def stabilizer_types(self):\n    if self._t is None:\n        self._t = list(set(\n"
+                     "            self.stabilizer_type(location) for location in self.stabilizer_coordinates))\n"
+                     "    return self._t\n").body[0]
+    uses = list(hash_ordered_uses(demo))
+    if not any(k == 'str' for _, _, k in uses):
+        raise AnalysisError('R02.3', 'pqv/rules/c02.py',
+                            'positive control failed: list(set(<stabilizer_type strings>)) not recognised as hash-ordered')
     ctx.extra['r023_functions'] = len(funcs)
     ctx.extra['r023_positive_control'] = 'StabilizerCode.stabilizer_types recognised (not an index sink)'
     # stabilizer_types itself must not feed index order
